@@ -60,7 +60,7 @@ OBLIG = {"C14": ["QuillModel.Obligations.RotSize"], "C15": ["QuillModel.Obligati
 
 C14_ORACLES = ("dup-id", "torn", "not-in-cur", "order", "not-suffix", "over-limit", "backup-bound", "backup-shrink", "ow-off-deleted")
 C15_ORACLES = ("time-merge", "time-split", "suffix", "grid", "dst-drift")
-C15_COMPOSITION = ("dup-id", "torn", "not-in-cur", "order", "not-suffix", "backup-bound", "ow-off-deleted")
+C15_COMPOSITION = ("dup-id", "torn", "not-in-cur", "order", "not-suffix", "backup-bound", "ow-off-deleted", "over-limit")
 
 # known-finding classes, recognised by the *input class* printed on the ORACLE line
 FINDING_TEXT = {
@@ -102,8 +102,6 @@ def classify(line):
         return "F14"
     if sch in ("D", "T") and f.get("unrecovered") == "1" and k in ("not-suffix", "backup-bound", "backup-shrink", "ow-off-deleted"):
         return "F15"
-    if k == "backup-shrink" and f.get("overstart") == "1":
-        return "F18"
     # the classes found with other base names / sinks (input class = what is printed about the case, never the oracle text)
     lost = ("ow-off-deleted", "not-suffix", "order", "dup-id", "backup-bound", "backup-shrink")
     if k == "over-limit" and f.get("sink") == "J":
@@ -114,6 +112,8 @@ def classify(line):
         return "F28"
     if f.get("base") == "numstem" and sch == "I" and int(f.get("arestarts", "0") or 0) >= 1 and k in lost + ("not-in-cur",):
         return "F31"
+    if k == "backup-shrink" and f.get("overstart") == "1":
+        return "F18"
     return None
 
 
